@@ -409,6 +409,12 @@ def replay(v):
         mod = G if inp['mode'] == 'glob' else F
         fl = gflags(inp['flags']) if inp['mode'] == 'glob' else fflags(inp['flags'])
         match = mod.globmatch if inp['mode'] == 'glob' else mod.fnmatch
+        if inp['how'] == 'translate-exclude=':
+            import re as _re
+            tr = mod.translate('*', flags=fl, exclude=p)[1]
+            by_translate = any(_re.compile(x).fullmatch(inp['name']) for x in tr)
+            by_matcher = any(r.fullmatch(inp['name']) for r in impl.wcregexp(mod.compile('*', flags=fl, exclude=p))._exclude)
+            return {'violates': by_translate != by_matcher, 'observed': {'excluded_by_translate': by_translate, 'excluded_by_matcher': by_matcher}}
         if inp['how'] == 'exclude=':
             kept = match(inp['name'], '**' if inp['mode'] == 'glob' else '*', flags=fl | mod.DOTMATCH | G.GLOBSTAR * (inp['mode'] == 'glob'), exclude=p)
         else:
